@@ -26,6 +26,7 @@ def extract_scope(source, project):
     # type: (Source, Project) -> SourceScope
     scope = SourceScope(source)
     extract(source.tree, scope.flow)
+    scope.resolve_nonlocals()
     scope.resolve_star_imports(project)
     return scope
 
